@@ -426,7 +426,6 @@ REJECTIONS = [
     ("ffcx.analysis", "_analyze_form", r"^_has_custom_integrals\(form\)$", "custom integrals"),
     ("ffcx.analysis", "_analyze_form", r"^any\(\(?e\.discontinuous for e in (\w+)\)?\)$", "discontinuous elements in vertex integrals"),
     ("ffcx.analysis", "analyze_ufl_objects", None, "unrecognised UFL objects"),
-    ("ffcx.ir.representation", "_compute_form_ir", r"^min\(subdomain_ids\) < -1$", "negative subdomain ids"),
     ("ffcx.ir.representation", "_compute_expression_ir", r"^len\(argument_elements\) > 1$", "expressions with several arguments"),
     ("ffcx.codegeneration.expression_generator", "ExpressionGenerator.__init__", r"^len\(list\(ir\.expression\.integrand\.keys\(\)\)\) != 1$", "several point sets"),
     ("ffcx.codegeneration.expression_generator", "ExpressionGenerator.generate_block_parts", r"^'zeros' in ttypes$", "zero tables in blocks"),
@@ -447,7 +446,7 @@ REJECTIONS = [
     "the explicit rejections of unsupported input are present, guard the documented condition and end in "
     "`raise`; the vertex-integral guard inspects every element of the integral (arguments and "
     "coefficients), not only the argument spaces",
-    min_instances=14,
+    min_instances=13,
 )
 def rejections(repo, res):
     import re as _re
@@ -486,3 +485,57 @@ def rejections(repo, res):
             outer = [n for n in walk_no_nested(f.node) if isinstance(n, ast.If) and any(x is hit for x in ast.walk(n)) and n is not hit]
             if not any("integral_type() == 'vertex'" in ast.unparse(o.test) for o in outer):
                 res.fail(k2, "the discontinuity guard is no longer tied to vertex integrals", m.line(hit))
+
+
+@rule(
+    "SUBDOMAIN-IDS",
+    ["C06", "C19"],
+    "_compute_form_ir maps UFL's \"otherwise\" to -1 and rejects every user-supplied negative subdomain id: the guard of the "
+    "`must be non-negative` rejection is evaluated (interpreted) on sample id tuples and must be true exactly when a user id "
+    "is negative - an id of -1 would otherwise share the slot reserved for the everywhere integral",
+    min_instances=6,
+)
+def subdomain_ids(repo, res):
+    from ..absint import Interp, Node, Raised
+    from ..lnodes_model import load_classes
+
+    rep = repo.mod("ffcx.ir.representation")
+    f = rep.func("_compute_form_ir")
+    res.functions.add(f.key)
+    guard = None
+    for n in ast.walk(f.node):
+        if isinstance(n, ast.If) and any(isinstance(b, ast.Raise) and "non-negative" in ast.unparse(b) for b in n.body):
+            guard = n
+    if guard is None:
+        key = f"{f.key}:negative-id-rejection"
+        res.ob(key)
+        res.fail(key, "negative subdomain ids are not rejected (no `must be non-negative` raise): -1 is reserved for the everywhere integral", rep.line(f.node))
+        return
+    mp = None
+    for n in ast.walk(f.node):
+        if isinstance(n, ast.Assign) and isinstance(n.targets[0], ast.Name) and n.targets[0].id == "subdomain_ids" and "otherwise" in ast.unparse(n.value):
+            mp = n
+    it = Interp(repo, load_classes(repo), primary="ffcx.ir.representation")
+    samples = [(("otherwise",), False), ((0,), False), ((3, "otherwise"), False), ((-1,), True), ((-2,), True), ((4, -1), True), ((0, 7, 12), False)]
+    for ids, want in samples:
+        key = f"{f.key}:negative-id-rejection:{ids}"
+        res.ob(key)
+        env = {"itg_data": Node("IntegralData", subdomain_id=ids)}
+        try:
+            if mp is not None:
+                env["subdomain_ids"] = it.expr(mp.value, dict(env))
+            got = bool(it.truth(it.expr(guard.test, env)))
+        except Raised as e:
+            got = f"raises {e.what}"
+        if got is not want:
+            res.fail(key, f"for integral ids {ids} the rejection guard `{ast.unparse(guard.test)[:80]}` is {got}, expected {want}: "
+                     + ("a user id of -1 is accepted and lands in the slot of the everywhere integral (m*dx(-1) + 2*m*dx lists both under id -1)" if want else
+                        "a legitimate id is rejected"), rep.line(guard))
+    key = f"{f.key}:otherwise-is-minus-one"
+    res.ob(key)
+    if mp is None:
+        res.fail(key, "`otherwise` is not mapped to -1", rep.line(f.node))
+    else:
+        v = it.expr(mp.value, {"itg_data": Node("IntegralData", subdomain_id=(5, "otherwise", 0))})
+        if list(v) != [5, -1, 0]:
+            res.fail(key, f"ids (5, otherwise, 0) are mapped to {v}, expected [5, -1, 0]", rep.line(mp))
